@@ -263,7 +263,19 @@ func (s *Svc) answer(ctx context.Context, name string, cond bool, old uint32) (*
 		}
 	}
 	if s.Latency > 0 {
-		time.Sleep(s.Latency)
+		// a slow answer; like a real transport, the request gives up when its own context ends first
+		t := time.NewTimer(s.Latency)
+		if s.IgnoreCtx {
+			<-t.C
+		} else {
+			select {
+			case <-t.C:
+			case <-ctx.Done():
+				t.Stop()
+				done("ctx-while-slow")
+				return nil, ctx.Err()
+			}
+		}
 	}
 	if s.Seams {
 		sched.Seam("svc.answer(" + name + ")")
